@@ -825,6 +825,13 @@ pub fn in_domain(c: &CallCase) -> bool {
     if has(&c.md, "grpc-encoding") {
         return false;
     }
+    // the theorems are stated for sides without compression; with compression configured the
+    // negotiation also reads grpc-accept-encoding (audit2 N-C02-4: caller metadata
+    // grpc-accept-encoding: gzip + a server that may send gzip + a client that does not accept
+    // it => UNIMPLEMENTED): such cases are compared with the model only
+    if !(c.cl.is_plain() && c.sv.is_plain()) && has(&c.md, "grpc-accept-encoding") {
+        return false;
+    }
     match &c.handler {
         Handler::Err(s) => st_ok(s),
         Handler::Ok(md, items) => !has(md, "grpc-encoding") && items.iter().all(|i| if let Item::Err(s) = i { st_ok(s) } else { true }),
@@ -1085,7 +1092,7 @@ fn run_case(out: &mut Out, kind: &str, c: &CallCase) {
             let o = if domain { judge(c, &r, &seen) } else { None };
             let n = POLLED_AFTER_END.load(std::sync::atomic::Ordering::SeqCst);
             let o = if o.is_none() && n > 0 { Some(format!("a message stream (caller's request stream or handler's response stream) was polled {} time(s) after it had returned None", n)) } else { o };
-            (Tr::L(vec![result_tr(&r), seen_tr(&seen, *resp_status.lock().unwrap())]), o)
+            (Tr::L(vec![result_tr(&r), seen_tr(&seen, *resp_status.lock().unwrap()), Tr::n(n as u64)]), o)
         }
     };
     let fam = kind.split('.').next().unwrap_or("call");
@@ -1450,6 +1457,183 @@ pub fn gen_compress_case(r: &mut Rng, shape: u8) -> CallCase {
     c
 }
 
+// ---- names present both in the response head and in the trailers (audit2 N-C02-2)
+/// a response no tonic server produces, fed to the real client::Grpc: head `headers`, identity DATA
+/// frames of `msgs`, then `trailers`
+#[derive(Clone, Debug)]
+pub struct MergeCase {
+    pub shape: u8,
+    pub headers: Md,
+    pub msgs: Vec<Vec<u8>>,
+    pub trailers: Md,
+    pub pcuts: Vec<usize>,
+    pub ppend: Vec<usize>,
+}
+fn raw_headers(md: &Md) -> HeaderMap {
+    let mut m = HeaderMap::new();
+    for (k, v) in md {
+        if let (Ok(n), Ok(val)) = (http::HeaderName::from_bytes(k.as_bytes()), http::HeaderValue::from_bytes(v)) {
+            m.append(n, val);
+        }
+    }
+    m
+}
+#[derive(Clone)]
+struct HandBuilt(Arc<MergeCase>);
+impl tower_service::Service<http::Request<tonic::body::Body>> for HandBuilt {
+    type Response = http::Response<ScriptBody<Status>>;
+    type Error = Status;
+    type Future = Pin<Box<dyn Future<Output = Result<Self::Response, Status>>>>;
+    fn poll_ready(&mut self, _: &mut Context<'_>) -> Poll<Result<(), Status>> {
+        Poll::Ready(Ok(()))
+    }
+    fn call(&mut self, req: http::Request<tonic::body::Body>) -> Self::Future {
+        let c = self.0.clone();
+        Box::pin(async move {
+            let _ = collect_frames(req.into_body()).await;
+            let mut frames: Vec<Fr> = c.msgs.iter().map(|m| {
+                let mut d = vec![0u8];
+                d.extend_from_slice(&(m.len() as u32).to_be_bytes());
+                d.extend_from_slice(m);
+                Fr::Data(d)
+            }).collect();
+            frames.push(Fr::Trailers(raw_headers(&c.trailers)));
+            let (body, _) = ScriptBody::new(recut(&frames, &c.pcuts, &c.ppend));
+            let mut resp = http::Response::new(body);
+            *resp.headers_mut() = raw_headers(&c.headers);
+            Ok(resp)
+        })
+    }
+}
+fn get_all<'a>(m: &'a HeaderMap, k: &str) -> Vec<&'a [u8]> {
+    m.get_all(k).iter().map(|v| v.as_bytes()).collect()
+}
+fn run_merge_case(out: &mut Out, kind: &str, c: &MergeCase) {
+    let call = CallCase { cl: SideCfg::default(), sv: SideCfg::default(), reads: None, shape: c.shape, md: vec![], req: vec![Item::Ok(vec![1])], qcuts: vec![], qpend: vec![], handler: Handler::Ok(vec![], vec![]), pcuts: vec![], ppend: vec![] };
+    POLLED_AFTER_END.store(0, std::sync::atomic::Ordering::SeqCst);
+    STRICT_PANICS.store(false, std::sync::atomic::Ordering::SeqCst);
+    let budget = 400 + 8 * (c.pcuts.len() + c.ppend.iter().sum::<usize>() + c.msgs.len());
+    let res = catch(std::panic::AssertUnwindSafe(|| spin(client_side(&call, HandBuilt(Arc::new(c.clone()))), budget)));
+    let fuel = 16 + c.pcuts.len() + c.ppend.iter().sum::<usize>() + c.msgs.len();
+    let h = raw_headers(&c.headers);
+    let t = raw_headers(&c.trailers);
+    let code: u32 = t.get("grpc-status").and_then(|v| v.to_str().ok()).and_then(|s| s.parse().ok()).unwrap_or(2);
+    let status_names = ["grpc-status", "grpc-message", "grpc-status-details-bin"];
+    let (obs, oracle) = match res {
+        Err(p) => (Tr::L(vec![Tr::n(9u8)]), Some(format!("panic: {}", p))),
+        Ok(Err(())) => (Tr::L(vec![Tr::n(8u8)]), Some("the call did not complete".into())),
+        Ok(Ok(r)) => {
+            // which side wins, name by name (Props/C08.v c08_merge_pointwise / c08_error_fold)
+            let mut o = None;
+            let names: Vec<String> = h.keys().chain(t.keys()).map(|k| k.as_str().to_string()).collect();
+            match &r {
+                ClientResult::Unary(md, m) => {
+                    if code != 0 || c.msgs.first() != Some(m) {
+                        o = Some("unexpected success / message".to_string());
+                    }
+                    for k in &names {
+                        let want = if t.contains_key(k.as_str()) { get_all(&t, k) } else { get_all(&h, k) };
+                        if get_all(md, k) != want {
+                            o = Some(format!("unary Ok: metadata name {:?}: the trailers' values must replace the head's", k));
+                        }
+                    }
+                }
+                ClientResult::Err(s) if c.shape <= 1 && code != 0 && c.msgs.is_empty() => {
+                    let md = s.metadata().clone().into_headers();
+                    for k in &names {
+                        let want = if h.contains_key(k.as_str()) { get_all(&h, k) } else if status_names.contains(&k.as_str()) { vec![] } else { get_all(&t, k) };
+                        if get_all(&md, k) != want {
+                            o = Some(format!("unary Err at the first message: status metadata name {:?}: the head's values must replace the status'", k));
+                        }
+                    }
+                    if s.code() as i32 as u32 != code {
+                        o = Some("wrong code".into());
+                    }
+                }
+                ClientResult::Stream(md, ms, e) => {
+                    if *ms != c.msgs {
+                        o = Some("messages differ".into());
+                    }
+                    for k in &names {
+                        if get_all(md, k) != get_all(&h, k) {
+                            o = Some(format!("stream: response metadata name {:?} must be the head's", k));
+                        }
+                    }
+                    match e {
+                        End::Ok if code == 0 => {}
+                        End::Err(s) if code != 0 => {
+                            let smd = s.metadata().clone().into_headers();
+                            for k in &names {
+                                let want = if status_names.contains(&k.as_str()) { vec![] } else { get_all(&t, k) };
+                                if get_all(&smd, k) != want {
+                                    o = Some(format!("stream Err: status metadata name {:?} must be the trailers'", k));
+                                }
+                            }
+                        }
+                        _ => o = Some("wrong end of the stream".into()),
+                    }
+                }
+                ClientResult::Err(s) => {
+                    // unary client, error trailers after >= 1 message: the drain's error, no merge
+                    if !(c.shape <= 1 && code != 0 && s.code() as i32 as u32 == code) {
+                        o = Some(format!("unexpected Err({:?})", s.code()));
+                    }
+                }
+            }
+            (result_tr(&r), o)
+        }
+    };
+    let model = format!(
+        "obs_client_call (mk_side None None None [] []) {} 200 {} {} {} {} {} {}",
+        c.shape,
+        coq_hm(&h),
+        coq_list(&c.msgs, |m| coq_bytes(m)),
+        coq_hm(&t),
+        coq_list(&c.pcuts, |n| n.to_string()),
+        coq_list(&c.ppend, |n| n.to_string()),
+        fuel
+    );
+    out.hist("merge.shape", ["unary", "client-streaming", "server-streaming", "bidi"][c.shape as usize]);
+    out.hist("merge.trailers_status", code);
+    out.hist("merge.shared_names", h.keys().filter(|k| t.contains_key(*k)).count());
+    let input = json!({"shape": c.shape, "headers": md_json(&c.headers), "msgs": c.msgs.iter().map(|m| hex(m)).collect::<Vec<_>>(), "trailers": md_json(&c.trailers), "pcuts": c.pcuts, "ppend": c.ppend});
+    out.push(vcommon::Case { kind: kind.to_string(), input, model, impl_obs: obs, oracle, nontrivial: true });
+}
+fn merge_case_from_json(v: &Value) -> MergeCase {
+    let us = |x: &Value| x.as_array().unwrap().iter().map(|y| y.as_u64().unwrap() as usize).collect::<Vec<_>>();
+    MergeCase { shape: v["shape"].as_u64().unwrap() as u8, headers: md_from_json(&v["headers"]), msgs: v["msgs"].as_array().unwrap().iter().map(|m| unhex(m.as_str().unwrap())).collect(), trailers: md_from_json(&v["trailers"]), pcuts: us(&v["pcuts"]), ppend: us(&v["ppend"]) }
+}
+fn merge_cases(out: &mut Out, r: &mut Rng, n: usize) {
+    let names = ["x-a", "x-b", "x-both", "x-both", "x-p-bin"];
+    for i in 0..n {
+        let shape = (i % 4) as u8;
+        let err = i % 3 != 0;
+        let mut headers: Md = vec![("content-type".into(), b"application/grpc".to_vec())];
+        let mut trailers: Md = vec![("grpc-status".into(), if err { r.range(1, 16).to_string().into_bytes() } else { b"0".to_vec() })];
+        if err && r.chance(1, 2) {
+            trailers.push(("grpc-message".into(), b"boom%20x".to_vec()));
+        }
+        for _ in 0..r.range(1, 4) {
+            let k = *r.pick(&names);
+            let v = if k.ends_with("-bin") { b"AQI".to_vec() } else { format!("h{}", r.below(9)).into_bytes() };
+            headers.push((k.to_string(), v));
+        }
+        for _ in 0..r.range(1, 4) {
+            let k = *r.pick(&names);
+            let v = if k.ends_with("-bin") { b"BAU".to_vec() } else { format!("t{}", r.below(9)).into_bytes() };
+            trailers.push((k.to_string(), v));
+        }
+        // at least one shared name
+        headers.push(("x-both".into(), b"from-head".to_vec()));
+        trailers.push(("x-both".into(), b"from-trailers".to_vec()));
+        let msgs: Vec<Vec<u8>> = if shape <= 1 { if err && r.chance(2, 3) { vec![] } else { vec![gen_payload(r)] } } else { (0..r.below(3)).map(|_| gen_payload(r)).collect() };
+        let lens: Vec<usize> = msgs.iter().map(|m| 5 + m.len()).collect();
+        let pcuts = gen_cuts(r, &lens);
+        let c = MergeCase { shape, headers, msgs, trailers, ppend: gen_pend(r, pcuts.len()), pcuts };
+        run_merge_case(out, "merge.shared_names", &c);
+    }
+}
+
 fn corpus(out: &mut Out) {
     let st = |code: u32, msg: &str, md: Md| StSpec { code, msg: msg.into(), details: vec![], md };
     let kv = |k: &str, v: &str| (k.to_string(), v.as_bytes().to_vec());
@@ -1489,8 +1673,13 @@ fn main() {
     if let Some(f) = &a.replay {
         let v: Value = serde_json::from_str(&std::fs::read_to_string(f).unwrap()).unwrap();
         let kind = v["kind"].as_str().unwrap_or("call.random").to_string();
+        if kind.starts_with("merge.") {
+            run_merge_case(&mut out, &kind, &merge_case_from_json(&v["input"]));
+            out.finish(IMPORTS, "replay", json!({}));
+            return;
+        }
         let c = CallCase::from_json(&v["input"]);
-        if kind.starts_with("h2") {
+        if kind.contains("h2.") {
             h2run::run_case(&mut out, &kind, &c);
         } else {
             run_case(&mut out, &kind, &c);
@@ -1547,6 +1736,18 @@ fn main() {
             run_case(&mut out, "edge.protocol_md", &gen_case(&mut r, shape, k, err, early, true));
         }
         limit_cases(&mut out, &mut r, a.thorough);
+        merge_cases(&mut out, &mut r, if a.thorough { 1200 } else { 160 });
+        // audit2 N-C02-4: caller metadata grpc-accept-encoding with a server that may compress and a
+        // client that does not accept it (outside the domain: model agreement only)
+        for i in 0..(if a.thorough { 200 } else { 24 }) {
+            let shape = (i % 4) as u8;
+            let mut c = gen_compress_case(&mut r, shape);
+            let e = ENCS[i % 3];
+            c.cl = SideCfg::default();
+            c.sv = SideCfg { send_set: vec![e], ..SideCfg::default() };
+            c.md.push(("grpc-accept-encoding".into(), ["gzip", "deflate", "zstd"][i % 3].as_bytes().to_vec()));
+            run_case(&mut out, "edge.compress_md", &c);
+        }
         for _ in 0..(if a.thorough { 1200 } else { 120 }) {
             let shape = if r.chance(1, 2) { 1 } else { 3 };
             let err = r.chance(1, 2);
